@@ -131,6 +131,7 @@ func (c *queueClass_[V]) Fork(
 
 	// Connect up the input queue to the output queues in a separate go-routine.
 	group.Add(1)
+	verifSpawn()
 	go func() {
 		// Make sure the wait group is decremented on termination.
 		defer group.Done()
@@ -183,6 +184,7 @@ func (c *queueClass_[V]) Split(
 
 	// Connect up the input queue to the output queues.
 	group.Add(1)
+	verifSpawn()
 	go func() {
 		// Make sure the wait group is decremented on termination.
 		defer group.Done()
@@ -232,6 +234,7 @@ func (c *queueClass_[V]) Join(
 
 	// Connect up the input queues to the output queue.
 	group.Add(1)
+	verifSpawn()
 	go func() {
 		// Make sure the wait group is decremented on termination.
 		defer group.Done()
@@ -287,22 +290,27 @@ func (v *queue_[V]) GetCapacity() uint {
 // Limited
 
 func (v *queue_[V]) AddValue(value V) {
+	verifYield(verifLock, v)
 	v.mutex_.Lock()
 	v.values_.AppendValue(value)
 	v.mutex_.Unlock()
+	verifYield(verifSend, v)
 	v.available_ <- true // The queue will block if at capacity.
 }
 
 func (v *queue_[V]) RemoveAll() {
+	verifYield(verifLock, v)
 	v.mutex_.Lock()
 	v.available_ = make(chan bool, v.capacity_)
 	v.values_ = List[V](v.GetClass().Notation()).Make()
+	verifNote(verifSwap, v)
 	v.mutex_.Unlock()
 }
 
 // Sequential
 
 func (v *queue_[V]) IsEmpty() bool {
+	verifYield(verifLock, v)
 	v.mutex_.Lock()
 	var result = len(v.available_) == 0
 	v.mutex_.Unlock()
@@ -310,6 +318,7 @@ func (v *queue_[V]) IsEmpty() bool {
 }
 
 func (v *queue_[V]) GetSize() int {
+	verifYield(verifLock, v)
 	v.mutex_.Lock()
 	var size = len(v.available_)
 	v.mutex_.Unlock()
@@ -317,6 +326,7 @@ func (v *queue_[V]) GetSize() int {
 }
 
 func (v *queue_[V]) AsArray() []V {
+	verifYield(verifLock, v)
 	v.mutex_.Lock()
 	var array = v.values_.AsArray()
 	v.mutex_.Unlock()
@@ -324,6 +334,7 @@ func (v *queue_[V]) AsArray() []V {
 }
 
 func (v *queue_[V]) GetIterator() age.IteratorLike[V] {
+	verifYield(verifLock, v)
 	v.mutex_.Lock()
 	var iterator = v.values_.GetIterator()
 	v.mutex_.Unlock()
@@ -344,8 +355,10 @@ func (v *queue_[V]) RemoveHead() (V, bool) {
 	var ok bool
 
 	// Remove the head value from the queue if one exists.
+	verifYield(verifRecv, v)
 	_, ok = <-v.available_ // Will block until a value is available.
 	if ok {
+		verifYield(verifLock, v)
 		v.mutex_.Lock()
 		head = v.values_.RemoveValue(1)
 		v.mutex_.Unlock()
@@ -356,8 +369,10 @@ func (v *queue_[V]) RemoveHead() (V, bool) {
 }
 
 func (v *queue_[V]) CloseQueue() {
+	verifYield(verifLock, v)
 	v.mutex_.Lock()
 	close(v.available_)
+	verifNote(verifClose, v)
 	// No more values can be placed on the queue.
 	v.mutex_.Unlock()
 }
